@@ -86,8 +86,8 @@ const HOUR: Duration = Duration::from_secs(3600);
 
 /// One completion: run wrapper `w` on `script`; the code is
 ///   retry-like wrappers: [calls, class (0 = Ok, else kind code), origin + 1]
-///   w = 9 (run_cloud_io_batch on items 1,2,3): [calls, sum item_k * 4^k, class, payload]
-///        payload = origin + 1 for Err, sum (v_j + 1) * 32^j for Ok([v_0, ..])
+///   w = 9 (run_cloud_io_batch on items 1,2,3): [calls, class] ++ item handed over at each
+///        call ++ payload, payload = [origin + 1] for Err, [v_0 + 1, ..] for Ok([v_0, ..])
 fn run_wrapper(w: i64, budget: u32, script: &[i64], overrun: bool) -> Vec<i64> {
     let cfg = RetryConfig {
         max_attempts: budget,
@@ -104,20 +104,17 @@ fn run_wrapper(w: i64, budget: u32, script: &[i64], overrun: bool) -> Vec<i64> {
             trace.push(*item);
             op_result(sym_at(script, i), i)
         });
-        let mut packed = 0i64;
-        for (k, it) in trace.iter().enumerate() {
-            packed += it << (2 * k);
-        }
-        return match r {
-            Ok(vs) => {
-                let mut p = 0i64;
-                for (j, v) in vs.iter().enumerate() {
-                    p += (v + 1) << (5 * j);
-                }
-                vec![trace.len() as i64, packed, 0, p]
+        let n = trace.len() as i64;
+        let mut code = vec![n, 0];
+        code.extend_from_slice(&trace);
+        match r {
+            Ok(vs) => code.extend(vs.iter().map(|v| v + 1)),
+            Err(e) => {
+                code[1] = code_of(&e.kind);
+                code.push(origin_of(&e) + 1);
             }
-            Err(e) => vec![trace.len() as i64, packed, code_of(&e.kind), origin_of(&e) + 1],
-        };
+        }
+        return code;
     }
     let mut calls = 0usize;
     let mut op = || {
